@@ -17,14 +17,16 @@ func init() {
 		ID: "C18", Title: "Iterator mixer is a faithful two-way merge",
 		Pkgs:      []string{"container/iterable"},
 		Run:       runC18,
-		Technique: "static analysis: path-sensitive typestate analysis by finite abstract interpretation of the go/ssa of Mixer.Init/HasNext/Next/Reset (abstract domain: constants for the control state, opaque tokens for elements; product with a per-source look-ahead automaton), exhaustive over the reachable abstract states",
+		Technique: "static analysis: path-sensitive typestate analysis by finite abstract interpretation of the go/ssa of Mixer.Init/HasNext/Next/Reset (abstract domain: constants for the control state, opaque tokens for elements; product with a per-source look-ahead automaton), exhaustive over the reachable abstract states; write/read/reset footprints (field access chains over the static call closure) of the iteration methods against those of Reset for every resettable iterator type",
 		Explanation: "The control state of the mixer (state byte and look-ahead flags, found by interpreting Init) is propagated through the SSA of HasNext, Next and Reset for every outcome of the environment calls (source HasNext/Next - including a Next that answers (zero, false) after HasNext said true, which the Iterator contract allows when the last element was removed in between: nothing may be emitted for it -, selector, Reset support); elements are opaque tokens, so only the shape of a merge step is decided. On every reachable abstract state: " +
 			"T1 a source is asked for its next element only when its look-ahead is empty and it has just reported HasNext (no element lost or fetched twice); " +
 			"T2 Next emits exactly a pending look-ahead element of one source and clears that look-ahead; " +
 			"T3 with both look-aheads pending the selector is applied to (first head, second head) in this order and the first head is emitted iff it returned true; with one pending that one is emitted only after the other source reported exhaustion; (zero,false) is returned only when both are exhausted; " +
 			"T4 HasNext is idempotent (no further environment call) and agrees with the following Next; " +
 			"T6 the package's iterator constructors return the same reset capability on every path; " +
-			"T5 a successful Reset restores exactly the state Init establishes (every field iteration writes), and fails with an error otherwise. T7: the same merge-step clauses T1-T4 hold from every state reached through a Reset that returned an error (sources that were not reset keep position and look-ahead, sources that were reset restart). T8: Init sets every boolean/integer control field, so a Mixer may be initialised again (the statement speaks of the mixer, not of a Mixer value used once).",
+			"T5 a successful Reset restores exactly the state Init establishes (every field iteration writes), and fails with an error otherwise. T7: the same merge-step clauses T1-T4 hold from every state reached through a Reset that returned an error (sources that were not reset keep position and look-ahead, sources that were reset restart). T8: Init sets every boolean/integer control field, so a Mixer may be initialised again (the statement speaks of the mixer, not of a Mixer value used once). " +
+			"T9: no path of Init/HasNext/Next/Reset calls Close of a source (observed as an environment call on every reachable abstract state): an iterator must not be used after Close, so a source closed before the mixer's own Close cannot be restarted by Reset. " +
+			"T10: every type of the package that is an Iterator and a golibs.Reseter whose Reset can return nil (the slice iterator, the Mixer as the input of another mixer) replays: every field, memory reached through a field, or nested iterator that its HasNext/Next (and what they call) modify is written again - or reset through golibs.Reseter - by its Reset; Mixer.Reset relies on exactly this when it takes a nil answer of a source's Reset for a restart.",
 		NotDecided: "the merged sequence as a value (induction over the inputs); behaviour of ill-behaved sources whose HasNext is not monotone.",
 	})
 }
@@ -45,6 +47,9 @@ func runC18(c *Ctx) {
 	}
 	m := func(name string) *ssa.Function { return c.RequireFn(c.P.MethodOf(mixer, name), "Mixer."+name) }
 	initFn, hasNext, next, reset := m("Init"), m("HasNext"), m("Next"), m("Reset")
+	// T9 (census part) and T10 do not depend on the interpretation below (v_mixer.go)
+	c.noCloseOutsideInterpretation(c18T9, "container/iterable", hasNext, next, reset)
+	c.resettableIteratorsReplay(c18T10, "container/iterable", mixer)
 	pkg := c.P.SSAPkg("container/iterable")
 	follow := func(fn *ssa.Function) bool {
 		root := fn
@@ -161,6 +166,8 @@ func runC18(c *Ctx) {
 				mm.dec = 0
 				return ai.Tuple{Elems: []ai.Val{elemTok(k), ai.Bool(true)}}
 			case name == "Close":
+				// T9 (v_mixer.go): only Init/HasNext/Next/Reset are interpreted here, never the mixer's own Close
+				fail(c18T9, c18NoEarlyClose, c18EarlyCloseDetail(curOp, k))
 				return ai.Const{}
 			case strings.HasPrefix(name, "typeassert:"):
 				return ai.Bool(choose())
@@ -450,6 +457,7 @@ func runC18(c *Ctx) {
 		{"C18.T4", "HasNext is idempotent"}, {"C18.T4", "HasNext agrees with the following Next"}, {"C18.T4", "HasNext true implies an element is available"},
 		{"C18.T5", "successful Reset restores the Init state"}, {"C18.T5", "Reset succeeds only when both inputs were reset"},
 		{"C18.T7", "after a refused Reset the merge step clauses T1-T4 still hold"},
+		{c18T9, c18NoEarlyClose},
 	} {
 		if ob[0] == "C18.T7" {
 			any := false
